@@ -201,6 +201,9 @@ def body(chk, db, cfgname):
         r3.ok(site, g.loc(), "EnsembleAverage of A first, of B second", cfgname)
     else:
         r3.bad(site, g.loc(), "the averages of A and B are not passed in this order", cfgname)
+    r_idem = chk.rule("C14-R4", "prepare()/compute() are idempotent: the early-return level is the level the function establishes", "F1 pairing", 3)
+    from checks.lehmann import check_status_guards
+    check_status_guards(r_idem, db, cfgname, ("Pomerol::Susceptibility", "Pomerol::EnsembleAverage"))
     chk.undecided.append("equality with int_0^beta <T A(tau) B(0)> e^{iWt} dtau at the value level; the threshold semantics of |Pole| < tolerance for nearly degenerate levels")
 
 
